@@ -94,6 +94,29 @@ def toBitReverse (p : Poly R) : Poly R := if p.bitrev then p else { p with coeff
 /-- the coefficient vector read in natural order (what the loops `coefficients[iRev]` read) -/
 def regular (p : Poly R) : List R := if p.bitrev then flip p else p.coeffs
 
+/-! ### conversions as the PROPERTY demands them (what the driver runs)
+
+`convert` above is the literal dispatch (tied to the Go source by Props/C20_gen). Two places of it are only right under
+the precondition `Denotes` (stored length = cardinality, coset = the domain's shift):
+  * `grow` appends the zeroes at the END of the stored vector. For a Canonical object in BitReverse layout that is shorter
+    than the domain this is not the bit-reversed layout of the padded polynomial (`growP`: pad in natural order);
+  * the coset shift is overwritten before the `return p` of an object that is already in LagrangeCoset form, although
+    its stored values are left alone (`convertP`: the shift is only recorded when the object has none yet, i.e. it was
+    created directly in LagrangeCoset form by `NewPolynomial`).
+`C20_convertP_agrees` (Props/C20): under `Denotes` both coincide. Spare capacity of the coefficient slice is not part of
+the object: nothing here can depend on it. -/
+
+/-- zero-padding to length `n` in the layout of the object -/
+def growP (n : Nat) (p : Poly R) : List R :=
+  if p.bitrev then bitReverse n.log2 (grow n (flip p)) else grow n p.coeffs
+
+/-- `ToLagrange` / `ToCanonical` / `ToLagrangeCoset` as the property demands -/
+def convertP [DecidableEq R] (kers : List Nat) (target : Basis) (d : Domain R) (p : Poly R) : Poly R :=
+  let r := convert kers target d { p with coeffs := growP (2^d.m) p }
+  match dispatch target p.basis p.bitrev with
+  | none => { r with coset := if target = .lagrangeCoset ∧ p.coset = 0 then d.g else p.coset }
+  | some _ => r
+
 /-! ### Evaluate -/
 
 /-- Horner: `r = r*x + c[i]` for `i = n-1 … 0` -/
@@ -486,50 +509,112 @@ def ofRec {q : Nat} (r : Rec) : Option (Poly (ZM q)) :=
   | some b, some l => some ⟨r.coeffs.map (fun x => ⟨x⟩), b, l, r.shift, r.size, ⟨r.coset⟩⟩
   | _, _ => none
 
+/-- `Ctx.dom` with the coset shift chosen by the script (`d<shift>`: fft.WithShift) -/
+def Ctx.domG (c : Ctx) (g m : Nat) : Domain (ZM c.q) :=
+  let w := c.gen m
+  { m := m, cardInv := ⟨invE (2^m % c.q) c.q⟩, gen := ⟨w⟩, genInv := ⟨invE w c.q⟩, g := ⟨g % c.q⟩,
+    gInv := ⟨invE g c.q⟩, precomp := true }
+
+/-- state of a script: the current object `p`, a second object `alt` (`N`, `H`, `x`), whether the two are aliases made by
+    `ShallowClone` (they share the `*polynomial`: stored vector, basis, layout — and, as the property demands, the coset
+    shift that belongs to that representation; `shift` and `size` are per object), the coset shift of the domains used
+    by the following conversions, the observations -/
+structure St (q : Nat) where
+  p : Poly (ZM q)
+  alt : Option (Poly (ZM q))
+  shared : Bool
+  g : Nat
+  out : List String
+
+/-- what the alias sees after a step on `p` -/
+def St.sync {q : Nat} (s : St q) : St q :=
+  if s.shared then
+    { s with alt := s.alt.map (fun a => { a with coeffs := s.p.coeffs, basis := s.p.basis, bitrev := s.p.bitrev,
+                                                  coset := s.p.coset }) }
+  else s
+
+/-- `N<form>:<c0>.<c1>.…[+k]`: a new object (`+k`: built over a buffer with `k` more, non-zero, entries behind it —
+    spare capacity is not part of the object, so `k` is ignored here) -/
+def parseNew (q : Nat) (rest : String) : Option (Poly (ZM q)) :=
+  match rest.splitOn ":" with
+  | [f, v] =>
+    match parseForm f with
+    | some (b, br) =>
+      let cs := ((v.splitOn "+").headD "").replace "." ","
+      some (newPoly (parseVec q cs) b br)
+    | none => none
+  | _ => none
+
 /-- one script step; `none` = the line is outside the modelled domain (`bad-op`) -/
-def step (c : Ctx) (nb : Nat) (st : Poly (ZM c.q) × List String) (tok : String) :
-    Option (Poly (ZM c.q) × List String) :=
-  let p := st.1
-  let out := st.2
+def step (c : Ctx) (nb : Nat) (st : St c.q) (tok : String) : Option (St c.q) :=
+  let p := st.p
+  let out := st.out
   let hd := tok.take 1 |>.toString
   let rest := (tok.drop 1).toString
   let arg := ((rest.splitOn "/").headD "")
+  let setp := fun (p' : Poly (ZM c.q)) => some { st with p := p' }
+  let obs := fun (s : String) => some { st with out := out ++ [s] }
   let conv := fun (t : Basis) =>
     match parseHex arg with
     | some m => if m ≤ c.L ∧ p.coeffs.length ≤ 2^m ∧ (p.basis = .canonical ∨ p.coeffs.length = 2^m)
                    ∧ (!p.bitrev || isPow2 p.coeffs.length)
-                then some (convert c.kers t (c.dom m) p, out) else none
+                then setp (convertP c.kers t (c.domG st.g m) p) else none
     | none => none
   match hd with
   | "L" => conv .lagrange
   | "C" => conv .canonical
   | "K" => conv .lagrangeCoset
-  | "R" => if isPow2 p.coeffs.length then some (toRegular p, out) else none
-  | "B" => if isPow2 p.coeffs.length then some (toBitReverse p, out) else none
-  | "S" => some (setShift p (parseInt rest), out)
-  | "Z" => some (setSize p (parseHexD rest), out)
-  | "c" => some (clone p, out)
-  | "h" => some (shallowClone p, out)
+  | "R" => if isPow2 p.coeffs.length then setp (toRegular p) else none
+  | "B" => if isPow2 p.coeffs.length then setp (toBitReverse p) else none
+  | "S" => setp (setShift p (parseInt rest))
+  | "Z" => setp (setSize p (parseHexD rest))
+  | "c" => some { st with p := clone p, shared := false }
+  | "h" => setp (shallowClone p)
+  | "H" => some { st with alt := some (shallowClone p), shared := true }
+  | "N" => (parseNew c.q rest).map (fun p' => { st with p := p', alt := some p, shared := false })
+  | "x" => st.alt.map (fun a => { st with p := a, alt := some p })
+  | "d" =>
+    match parseHex rest with
+    | some s => if s = 0 ∨ s ≥ c.q then none else some { st with g := s }
+    | none => none
+  | "r" =>
+    -- `p.ReadFrom(bytes of alt)`: the receiver is an object that has been used before
+    match st.alt with
+    | some a =>
+      match decode nb c.q (encode nb (toRec a)) with
+      | .ok (r, []) => (ofRec r).bind setp
+      | _ => none
+    | none => none
   | "w" =>
     match decode nb c.q (encode nb (toRec p)) with
-    | .ok (r, []) => (ofRec r).map (fun p' => (p', out))
+    | .ok (r, []) => (ofRec r).map (fun p' => { st with p := p', shared := false })
     | _ => none
-  | "W" => some (p, out ++ [bytesToHex (encode nb (toRec p))])
+  | "W" => obs (bytesToHex (encode nb (toRec p)))
   | "E" =>
     if p.size = 0 ∨ lg2 p.size > c.L ∨ lg2 p.coeffs.length > c.L then none else
-    some (p, out ++ [toHex (evaluate c.env p (zm c.q (parseHexD rest))).val])
+    obs (toHex (evaluate c.env p (zm c.q (parseHexD rest))).val)
   | "G" =>
-    if p.size = 0 then some (p, out ++ ["panic"]) else
-    some (p, out ++ [showVec ((List.range p.coeffs.length).map (getCoeff p))])
+    if p.size = 0 then obs "panic" else
+    obs (showVec ((List.range p.coeffs.length).map (getCoeff p)))
   | "g" =>
-    if p.size = 0 then some (p, out ++ ["panic"]) else
-    some (p, out ++ [toHex (getCoeff p (parseHexD rest)).val])
-  | "F" => some (p, out ++ [dump p])
+    if p.size = 0 then obs "panic" else
+    obs (toHex (getCoeff p (parseHexD rest)).val)
+  | "F" => obs (dump p)
   | _ => none
+
+/-- a leading `D<k>` says that the initial object is built over a buffer with `k` more (non-zero) entries behind its
+    coefficient slice (a prefix view `h[:n]`, a truncated vector): not part of the object, dropped here -/
+def dropDirty (toks : List String) : List String :=
+  match toks with
+  | t :: ts => if t.startsWith "D" ∧ (parseHex (t.drop 1).toString).isSome then ts else toks
+  | [] => []
 
 def runScript (c : Ctx) (nb : Nat) (p : Poly (ZM c.q)) (script : String) : Option (Poly (ZM c.q) × List String) :=
   if script == "-" then some (p, []) else
-  (script.splitOn ",").foldl (fun st tok => st.bind (fun s => step c nb s tok)) (some (p, []))
+  let toks := dropDirty (script.splitOn ",")
+  let r := toks.foldl (fun st tok => st.bind (fun s => (step c nb s tok).map St.sync))
+    (some (⟨p, none, false, c.g, []⟩ : St c.q))
+  r.map (fun s => (s.p, s.out))
 
 def parseCtx (curve qs Ls ws gs : String) : Option Ctx :=
   match kernelsOf curve, parseHex qs, parseHex Ls, parseHex ws, parseHex gs with
@@ -724,7 +809,7 @@ def handle1 (args : List String) : String :=
       if m.isEmpty then "panic" else toHex (mlSum m).val
     | none => "bad-op"
   | [kind, curve, qs, Ls, ws, gs, nbs, form, cs, script] =>
-    if kind ∉ ["conv", "shift", "evalpt", "getcoeff", "clone", "ser", "cosetnew"] then "bad-op" else
+    if kind ∉ ["conv", "shift", "evalpt", "getcoeff", "clone", "ser", "cosetnew", "obj"] then "bad-op" else
     match parseCtx curve qs Ls ws gs, parseForm form with
     | some c, some (b, br) =>
       match runScript c (parseHexD nbs) (newPoly (parseVec c.q cs) b br) script with
